@@ -5,7 +5,7 @@ import re
 
 from mirlib import facts, flow, ir, symx
 from mirlib.pat import ANY, ADT, C, CLOS, F, IDX, K, OP, P, TUP, V, match
-from rules import kernel, shared
+from rules import deps, kernel, shared
 from rules.kernel import deep_strip, strip, is_call, effects_named, unloop, int_of
 
 EXPLANATION = """
@@ -18,7 +18,9 @@ takes the last created handle as root; every statement is paired with its own bi
 C07.T-conn: and->AND, or->OR, imp->first IMPLIES second, xor->XOR, iff->IFF, neg->NOT, c(v)->TOP, c(f)->BOT, atom->its own
 variable), C09.F-order (Adf::from_parser and adfbiodivine::Adf::from_parser store the formula fetched with the enumerate
 index into the slot given by the formula_order() item; formula_order maps each acceptance-condition name through the
-dictionary at construction time), C01.A-hybrid (which diagrams the hybrid steps hand to the bridge)."""
+dictionary at construction time), C01.A-hybrid (which diagrams the hybrid steps hand to the bridge), and the kernel-build suite of
+rules/deps.py (C07.T-conn, C07.T-ite0, C07.R-ite, S.F-memo ite_cache, S.R-node, S.R-new, S.W-store, C06.W-ctor): the native compilation
+is a fold of these operations."""
 NOT_DECIDED = "biodivine's own compilation (eval_expression) is trusted; 'formulas of any size' follows by structural induction over Formula from the per-variant step (paper)."
 TECHNIQUE = "static analysis: writer/reader table agreement (dependency source pinned by Cargo.lock vs MIR summary of the reader), per-variant MIR summaries, index provenance"
 
@@ -499,4 +501,4 @@ def check(ctx):
         F_order(ctx, lib)
         A_name(ctx, lib)
         C01.A_hybrid(ctx, lib)
-        kernel.T_conn(ctx, lib)
+        deps.kernel_build(ctx, lib)      # includes C07.T-conn
